@@ -120,7 +120,8 @@ type BlockTruth struct {
 	LastEntryHash []byte
 	NumEntries    int
 	Txs           []int // indices into Txs, position order
-	Rewards       []byte
+	Rewards       []byte // as stored (zstd)
+	RewardsRaw    []byte // uncompressed protobuf
 	RewardsCid    cid.Cid
 	Obj           int
 	FirstObj      int // index of the first object belonging to this block's DAG
@@ -353,7 +354,17 @@ func Generate(shape Shape) *Truth {
 		bt.NumEntries = len(bs.Entries)
 		// rewards
 		if bs.Rewards != nil {
-			payload := zstdCompress(append([]byte("rewards-for-slot-"+fmt.Sprint(slot)+"-"), g.rnd(bs.Rewards.Pad, "rewards")...))
+			// a valid Rewards protobuf; padding = extra reward entries with incompressible keys
+			rws := &confirmed_block.Rewards{Rewards: []*confirmed_block.Reward{{Pubkey: Account(7).String(), Lamports: int64(slot), PostBalance: 42, RewardType: confirmed_block.RewardType_Fee}}}
+			for n := 0; n < bs.Rewards.Pad; n += 44 {
+				rws.Rewards = append(rws.Rewards, &confirmed_block.Reward{Pubkey: solana.PublicKeyFromBytes(g.rnd(32, "rewardkey")).String(), Lamports: 1, PostBalance: 2, RewardType: confirmed_block.RewardType_Rent})
+			}
+			raw, err := proto.Marshal(rws)
+			if err != nil {
+				panic(err)
+			}
+			bt.RewardsRaw = raw
+			payload := zstdCompress(raw)
 			bt.Rewards = payload
 			first := g.frames(payload, *bs.Rewards)
 			rw := ipldbindcode.Rewards{Kind: KindRewards, Slot: int(slot), Data: first}
@@ -469,8 +480,8 @@ func (g *gen) tx(ts TxShape, slot uint64, pos, blockIdx, counter int) TxTruth {
 			LogMessages:  logs,
 		}
 		if ts.Failed {
-			// bincode of TransactionError::AccountInUse (variant 0)
-			meta.Err = &confirmed_block.TransactionError{Err: []byte{0, 0, 0, 0}}
+			// bincode of TransactionError::InstructionError(0, InstructionError::Custom(7))
+			meta.Err = &confirmed_block.TransactionError{Err: []byte{8, 0, 0, 0, 0, 25, 0, 0, 0, 7, 0, 0, 0}}
 		}
 		for _, l := range ts.Loaded {
 			k := Account(l)
